@@ -323,7 +323,7 @@ func vC01NewRun(out *vOut, c int, capacity int, reqSized bool, mode string) *vC0
 		s = "req"
 	}
 	out.Linef("case %d cap=%d sizer=%s mode=%s block=%d", c, capacity, s, mode, vB(mode == "block"))
-	return &vC01Run{out: out, capacity: capacity, reqSized: reqSized, st: map[string][]byte{}, nextID: 1, stats: map[string]int{}, acceptedIDs: map[uint64]bool{}, handedIDs: map[uint64]bool{}, trnd: vRand(c ^ 0x2f6b3a1d), rawDump: c%8 == 3, finalIDs: map[uint64]bool{}, outIDs: map[uint64]uint64{}}
+	return &vC01Run{out: out, capacity: capacity, reqSized: reqSized, st: map[string][]byte{}, nextID: 1, stats: map[string]int{}, acceptedIDs: map[uint64]bool{}, handedIDs: map[uint64]bool{}, trnd: vRand(c ^ 0x2f6b3a1d), rawDump: c%16 == 3, finalIDs: map[uint64]bool{}, outIDs: map[uint64]uint64{}}
 }
 
 func vC01Opt64(b []byte, ok bool) string {
